@@ -15,26 +15,197 @@ def _c03_case(c):
     return {"raw": c}
 
 
+# ---- in-Coq re-evaluation (vm_compute) of a sample of the correspondence cases: checks the
+# extraction + OCaml driver against the Gallina model itself (thorough tier)
+
+_VM_PRELUDE = """From Oras Require Import Base.Prelude Generated.GC03 Model.FindRoots.
+Local Open Scope nat_scope.
+Definition tbl (l : list (str * bool)) (s : str) : bool :=
+  match find (fun p => str_eqb s (fst p)) l with Some p => snd p | None => false end.
+Definition nthd {A} (l : list A) (d : A) (i : nat) : A := nth i l d.
+Definition same_set (a c : list nat) : bool :=
+  (forallb (fun x => mem x c) a && forallb (fun x => mem x a) c)%bool.
+Definition roots_are (r : option (list desc)) (ids : list nat) : bool :=
+  match r with Some l => same_set (map d_id l) ids | None => false end.
+"""
+
+
+def _vm_str(h):
+    if h == "-":
+        return "(@nil N)"
+    bs = bytes.fromhex(h)
+    if all(0x20 <= c <= 0x7e and c != 0x22 for c in bs):
+        return '(b "%s")' % bs.decode("ascii")
+    return "([%s]%%N)" % "; ".join(str(c) for c in bs)
+
+
+def _vm_ann(t):
+    if t == "~":
+        return "(@None annots)"
+    if t == "@":
+        return "(Some (@nil (str * str)))"
+    kv = [x.split("=") for x in t.split(";")]
+    return "(Some [%s])" % "; ".join("(%s, %s)" % (_vm_str(k), _vm_str(v)) for k, v in kv)
+
+
+def _vm_tbl(t):
+    if t == "_":
+        return "(tbl [])"
+    ents = [x.split("=") for x in t.split(",")]
+    return "(tbl [%s])" % "; ".join("(%s, %s)" % (_vm_str(k), "true" if v == "1" else "false") for k, v in ents)
+
+
+def _vm_filters(k, toks):
+    fs = []
+    for _ in range(k):
+        t = toks.pop(0)
+        if t == "A0":
+            fs.append("FArt None")
+        elif t == "A":
+            fs.append("FArt (Some %s)" % _vm_tbl(toks.pop(0)))
+        elif t == "N0":
+            fs.append("FAnn %s None" % _vm_str(toks.pop(0)))
+        elif t == "N":
+            key = toks.pop(0)
+            fs.append("FAnn %s (Some %s)" % (_vm_str(key), _vm_tbl(toks.pop(0))))
+        else:
+            raise ValueError("filter " + t)
+    return "[%s]" % "; ".join(fs)
+
+
+_VM_KIND = {"I": "KImage", "D": "KDocker", "X": "KIndex", "L": "KDockerList", "A": "KArtifact", "O": "KOther"}
+
+
+def _vm_desc(i, at, ann):
+    return "(mkDesc %d %s %s)" % (int(i), _vm_str(at), _vm_ann(ann))
+
+
+def _vm_source(n, toks, lister):
+    kinds, mats, cfgs, anns, preds = [], [], [], [], []
+    for _ in range(n):
+        kd, mat, cfg, an, np_ = toks.pop(0), toks.pop(0), toks.pop(0), toks.pop(0), int(toks.pop(0))
+        ps = []
+        for _ in range(np_):
+            ps.append(_vm_desc(toks.pop(0), toks.pop(0), toks.pop(0)))
+        kinds.append(_VM_KIND[kd]); mats.append(_vm_str(mat)); cfgs.append(_vm_str(cfg)); anns.append(_vm_ann(an))
+        preds.append("[%s]" % "; ".join(ps) if ps else "(@nil desc)")
+    return ("(mkSource (@nthd (list desc) [%s] []) (@nthd mkind [%s] KOther) (@nthd str [%s] []) (@nthd str [%s] []) "
+            "(@nthd (option annots) [%s] None) %s)" % ("; ".join(preds), "; ".join(kinds), "; ".join(mats),
+                                                        "; ".join(cfgs), "; ".join(anns), "true" if lister == "1" else "false"))
+
+
+def _vm_goal(case, out):
+    toks = [t for t in case.split(" ") if t and not t.startswith("#")]
+    kind = toks.pop(0)
+    if kind == "FR":
+        n, limit, start, lister, nf = int(toks.pop(0)), int(toks.pop(0)), int(toks.pop(0)), toks.pop(0), int(toks.pop(0))
+        fs = _vm_filters(nf, toks)
+        src = _vm_source(n, toks, lister)
+        call = "find_roots (fuel_for S %d) S %s (%d)%%Z (mkDesc %d [] None)" % (n, fs, limit, start)
+        if out == "FUEL":
+            return "let S := %s in %s = None" % (src, call)
+        if not out.startswith("OK "):
+            return None
+        ids = [] if out[3:] == "-" else [int(x) for x in out[3:].split(",")]
+        return "let S := %s in roots_are (%s) [%s] = true" % (src, call, "; ".join(map(str, ids)))
+    if kind == "FP":
+        n, x, lister, nf = int(toks.pop(0)), int(toks.pop(0)), toks.pop(0), int(toks.pop(0))
+        fs = _vm_filters(nf, toks)
+        src = _vm_source(n, toks, lister)
+        if not out.startswith("P"):
+            return None
+        ds = []
+        for t in out.split(" ")[1:]:
+            i, at, an = t.split(":")
+            ds.append(_vm_desc(i, at, an))
+        return "let S := %s in find_preds S %s %d = %s" % (src, fs, x, "[%s]" % "; ".join(ds) if ds else "(@nil desc)")
+    if kind == "AT":
+        kd, mat, cfg = toks
+        src = ("(mkSource (fun _ => []) (fun _ => %s) (fun _ => %s) (fun _ => %s) (fun _ => None) false)"
+               % (_VM_KIND[kd], _vm_str(mat), _vm_str(cfg)))
+        if not out.startswith("T "):
+            return None
+        return "fetch_artifact_type %s 0 = %s" % (src, _vm_str(out[2:]))
+    return None
+
+
+def _c03_vm_sample(d, tier, coq, build, want=280):
+    import os, subprocess, collections
+    if tier != "thorough" and not os.environ.get("VERIF_VM_SAMPLE"):
+        return []
+    outs = {}
+    with open(os.path.join(d, "model.txt")) as f:
+        for l in f:
+            i, _, o = l.rstrip("\n").partition(" ")
+            outs[i] = o
+    quota = {"FR": 120, "FP": 120, "AT": 40}
+    maxlen = 5000
+
+    def strip(c):
+        return " ".join(t for t in c.split(" ") if not t.startswith("#"))
+
+    total = collections.Counter()
+    with open(os.path.join(d, "cases.txt")) as f:
+        for l in f:
+            i, _, c = l.rstrip("\n").partition(" ")
+            c = strip(c)
+            if len(c) <= maxlen:
+                total[c.split(" ", 1)[0]] += 1
+    got, stride, goals = collections.Counter(), collections.Counter(), []
+    with open(os.path.join(d, "cases.txt")) as f:
+        for l in f:
+            i, _, c = l.rstrip("\n").partition(" ")
+            c = strip(c)
+            k = c.split(" ", 1)[0]
+            if k not in quota or got[k] >= quota[k] or len(c) > maxlen or i not in outs:
+                continue
+            stride[k] += 1
+            if (stride[k] - 1) % max(1, total[k] // quota[k]) != 0:
+                continue
+            g = _vm_goal(c, outs[i])
+            if g:
+                got[k] += 1
+                goals.append((i, g))
+    vdir = os.path.join(build, "vm")
+    os.makedirs(vdir, exist_ok=True)
+    vf = os.path.join(vdir, "C03_cases.v")
+    with open(vf, "w") as f:
+        f.write(_VM_PRELUDE)
+        for i, g in goals:
+            f.write("\n(* %s *)\nGoal %s.\nProof. vm_compute. reflexivity. Qed.\n" % (i, g))
+    p = subprocess.run(["coqc", "-R", coq, "Oras", "-w", "-notation-overridden", vf], cwd=vdir, timeout=1500,
+                       stdout=subprocess.PIPE, stderr=subprocess.STDOUT, text=True)
+    with open(os.path.join(d, "vm_sample.txt"), "w") as f:
+        f.write("%d goals %s rc=%d\n%s" % (len(goals), dict(got), p.returncode, p.stdout[-3000:]))
+    if p.returncode != 0:
+        return ["vm_compute re-evaluation of %d sampled cases inside Coq disagrees with the extracted runner (or does not type-check): %s"
+                % (len(goals), p.stdout[-1200:])]
+    if len(goals) < want // 2:
+        return ["vm_compute sample too small: %d goals" % len(goals)]
+    return []
+
+
 CONFIG = {
     "properties_file": "Properties/C03.v",
-    "proof_files": ["Base/Prelude.v", "Proofs/FindRoots.v"],
+    "proof_files": ["Base/Prelude.v", "Proofs/FindRoots.v", "Proofs/FindRootsCopy.v"],
     "model_files": ["Generated/GC03.v", "Model/FindRoots.v"],
     "extract": "XC03.v",
     "ml_main": "c03_main.ml",
     "harness": "c03",
     "case_to_replay": _c03_case,
+    "post_model": _c03_vm_sample,
     "timeout_quick": 600,
     "assumptions": [
-        "copy_closure_C01 / copy_only_C01 (Section hypotheses of C03_extended_closure, C03_depth_own_graph, C03_depth_nothing_outside): the copy phase (copyGraph per root with shared tracker/proxy/limiter) delivers each root's graph byte-identical and writes nothing else; this is C01's theorem, to be connected after merging. The oracle checks the end-to-end statement on the real ExtendedCopy/ExtendedCopyGraph.",
+        "copy phase: C03_extended_closure / C03_depth_own_graph use C01's theorem (Proofs/CopySpec.v closure_lemma = C01_closure) through copy_run_of: for every root there is an accepted run of C01's copyGraph transition system that returned success from a link-closed destination and whose destination content is contained in the final destination. That ExtendedCopyGraph's concurrent per-root copyGraph calls (shared tracker, proxy and limiter: a node is copied by whichever call commits it first, the others wait for it) amount to such runs is modelled, not verified; the oracle checks the end-to-end statement on the real ExtendedCopy/ExtendedCopyGraph with Concurrency 0-4. The general forms C03_extended_closure_gen / C03_depth_own_graph_gen / C03_depth_nothing_outside keep the closure facts as Section hypotheses copy_closure_C01 / copy_only_C01; mt_consistent is C01's hypothesis for digest-keyed destinations",
         "acyclic_source: the source's predecessor relation is acyclic (content addressing: a predecessor embeds the digest of its successor); pred_is_inverse_link: Predecessors is the inverse of content.Successors on the source (C07's subject; the harness checks it against the generator's edge list on every case)",
         "served_ok (C03_filter_exact): a served descriptor may lack artifactType/annotations, but what it carries is the manifest's; a ReferrerLister source (remote repository: Referrers API response / referrers-tag index) serves complete referrer descriptors (artifactType = effective type, annotations = the manifest's) as the distribution spec requires -- the first filter does not fetch there. The harness registry serves such descriptors; generators keep descriptors consistent",
         "regular expressions are their MatchString function (str -> bool), quantified over; Go regexp is evaluated by the harness into the truth table the model receives",
         "encoding/json decoding of artifactType / config.mediaType / annotations is modelled as field selection (s_mat, s_mcfg, s_mann)",
-        "for a remote repository the source's predecessor relation is the referrers (subject) relation only (Repository.Predecessors = Referrers); HTTP, pagination (Link) and the tag-schema fallback are exercised through an in-memory registry, not modelled; errors of Predecessors/Fetch are not modelled (findRoots returns them unchanged)",
+        "for a remote repository the source's predecessor relation is the referrers (subject) relation only (Repository.Predecessors = Referrers); HTTP, pagination and the tag-schema fallback are exercised through an in-memory registry, not modelled (C15 models the page loop): the client's ReferrerListPageSize (unset / smaller / equal / larger), the registry's page cap, short pages with Link and server-side vs client-side artifactType filtering are drawn independently; a predecessor the source does not serve is reported (predecessors-missing); errors of Predecessors/Fetch are not modelled (findRoots returns them unchanged)",
         "media type case lists of FilterArtifactType / FilterAnnotation / fetchArtifactType are regenerated from extendedcopy.go (Generated/GC03.v); the value fetchArtifactType returns per case is hand-modelled and tied by correspondence",
     ],
     "level_text": "Coq theorems for every source graph, served predecessor order, start node, Depth and filter stack about a model of findRoots (stack DFS, visited set, depth-tagged frames), FilterArtifactType/FilterAnnotation (fetch-on-missing-field) and the ExtendedCopy wrapper: roots = tops of the upward closure and cover it (Depth<=0), two-sided depth bound, termination, filter exactness w.r.t. manifest content, end-to-end closure modulo C01's copy-closure hypothesis; tied to the code by hook-level differential runs (findRoots, opts.FindPredecessors, fetchArtifactType, ExtendedCopy) and an independent oracle on ExtendedCopy/ExtendedCopyGraph over memory, OCI (fresh and reopened), file and remote (Referrers API with pagination, referrers tag schema) sources",
     "level_note": "copy phase = hypothesis copy_closure_C01 (C01); remote sources through an in-memory read-only registry only; concurrency of the copy phase is exercised (Concurrency 0-4) but not modelled here; Docker manifests have no artifact type (effective type \"\")",
     "technique": "machine-checked proof in Coq (loop invariants of the stack DFS, for every served predecessor order) + model/implementation correspondence + independent oracle",
-    "explanation": "loop-invariant proofs over the DFS of findRoots for every served order; filter exactness by induction over the filter stack; model vs implementation on findRoots (hook), opts.FindPredecessors and fetchArtifactType for random DAGs x source kinds x descriptor styles; oracle from the generator's inverse edge list and manifest fields on findRoots, ExtendedCopyGraph and ExtendedCopy",
+    "explanation": "(thorough: 280 sampled cases re-evaluated inside Coq with vm_compute against the extracted runner) loop-invariant proofs over the DFS of findRoots for every served order; filter exactness by induction over the filter stack; model vs implementation on findRoots (hook), opts.FindPredecessors and fetchArtifactType for random DAGs x source kinds x descriptor styles; oracle from the generator's inverse edge list and manifest fields on findRoots, ExtendedCopyGraph and ExtendedCopy",
 }
